@@ -101,7 +101,9 @@ fn one_poll<const K: usize, const C: usize>() {
     }
     kani::cover!(true, "polled");
     // J is re-established
-    if was_pending { assert!(len_decode(&f.read_buf).is_none() || f.flags.contains(Flags::READABLE), "J: READABLE clear => no frame buffered"); }
+    // after EVERY poll, not only a pending one: a frame left in the buffer must still be marked readable, otherwise the next
+    // poll reads from the transport first (it may stall on Pending, or surface a later I/O error before an earlier frame)
+    assert!(len_decode(&f.read_buf).is_none() || f.flags.contains(Flags::READABLE), "J: READABLE clear => no frame buffered");
     core::mem::forget(f);
 }
 #[kani::proof] #[kani::unwind(10)] fn c13_poll_k0_c1() { one_poll::<0, 1>() }
@@ -111,6 +113,8 @@ fn one_poll<const K: usize, const C: usize>() {
 #[kani::proof] #[kani::unwind(10)] fn c13_poll_k2_c1() { one_poll::<2, 1>() }
 #[kani::proof] #[kani::unwind(10)] fn c13_poll_k2_c0() { one_poll::<2, 0>() }
 #[kani::proof] #[kani::unwind(10)] fn c13_poll_k3_c2() { one_poll::<3, 2>() }
+#[kani::proof] #[kani::unwind(10)] fn c13_poll_k4_c0() { one_poll::<4, 0>() }
+#[kani::proof] #[kani::unwind(10)] fn c13_poll_k4_c1() { one_poll::<4, 1>() }
 #[cfg(feature = "thorough")] #[kani::proof] #[kani::unwind(10)] fn c13_poll_k4_c3() { one_poll::<4, 3>() }
 #[cfg(feature = "thorough")] #[kani::proof] #[kani::unwind(10)] fn c13_poll_k2_c3() { one_poll::<2, 3>() }
 
